@@ -18,6 +18,18 @@ oracle that is written from the property statement and shares no code with the l
   C14.counts.*                       documented vertex / face counts as functions of the parameters
   C14.geometry.*                     vertices on the named surface, requested corners, regular sampling,
                                      the faces cover the named planar shape, apex angle defect
+
+Every case is run in several argument forms / call protocols, all judged by the same oracle with the same
+expectations (the statement quantifies over calls, not over first calls on fresh float objects):
+  primary            float-typed points, fresh argument objects, one call                (clauses above)
+  repeat             the same argument objects handed to the generator twice in a row, the 2nd result is judged
+                                                                                          C14.repeat.<clause>
+  int_dtype          centres / corners / end points / point arrays given with an integer dtype (lattice points)
+  default_argument   centre left to the documented default (origin), called twice         C14.argform.<clause>
+  C14.args.unchanged after every call of every form: each argument object (points, arrays, input meshes) and each
+                     array-valued default argument object of the generator is what it was before the call
+A finding of a further form is reported only when the primary form of the same case did not show the same clause
+with the same witness (so a known finding is not reported a second time under another name).
 """
 from __future__ import annotations
 import itertools, math
@@ -28,7 +40,11 @@ TECHNIQUE = "bounded-exhaustive sweep of the generators' parameter boxes vs inde
 RULE = ("one case = one (generator, parameter vector): every generator of mouette.procedural x every point of its "
         "parameter box (each resolution axis independently incl. unequal and minimal values, radii, centres, lattice "
         "end points, every combination of boolean switches, ring defects, covers); distinct = distinct (generator, "
-        "parameters); non-trivial = the generator returned a mesh that was handed to the oracle")
+        "parameters); non-trivial = the generator returned a mesh that was handed to the oracle; every case is run as "
+        "primary (fresh float arguments, one call), repeat (same argument objects, two calls in a row, second result "
+        "judged), int_dtype (integer-typed lattice points / arrays, where the generator takes points) and "
+        "default_argument (centre omitted, two calls in a row, where the centre has a default), with identical "
+        "expectations, and all argument / default-argument objects are compared before and after each call")
 ASSUMPTIONS = [
     "admissible = periodic resolutions >= 3 (torus segments, cylinder N, sphere_uv n_long, ring N), sphere_uv n_lat >= 2, "
     "grid / unit_triangle resolutions >= 2, sphere_fibonacci n_pts >= 4, torus minor_radius < major_radius, "
@@ -42,17 +58,24 @@ ASSUMPTIONS = [
     "unit_triangle: vertex positions are not examined on outputs whose faces already index outside the vertex list "
     "(counted as geometry_not_examined_on_structurally_broken_mesh)",
     "ring / flat_ring with n_cover = k: 'requested defect' is read per covering, i.e. sum of apex angles = k (2 pi - defect)",
+    "an argument object is 'unchanged' when its dtype, shape and values (arrays) / vertex positions and defining element "
+    "list (input meshes of dual_mesh, cylindrify_edges, spherify_vertices) are equal before and after the call; "
+    "connectivity caches and attributes an input mesh may acquire are not looked at",
+    "integer-typed points are admissible arguments (Vec(0,0,0) is an integer vector and is the documented default "
+    "centre of icosahedron); only integer-valued lattice points are given that way",
     "a VolumeMesh result (volume=True) is checked for type, cells, indices and an unoriented closed boundary; the "
     "orientation of the faces of a volume mesh is not part of the statement",
 ]
 BOUNDS = {
-    "quick": "814 cases: resolutions 3..6 per axis independently (unit_grid/unit_triangle 2..6, sphere_uv n_lat 2..6), radii "
-             "{1/2,1,2}, centres {0,(1,2,3)}, 4 lattice axes, torus radii {(1,1/4),(2,1/2)}, ring N 3..6 x defects "
-             "{0,0.3,pi/2,pi} x open x covers {1,2}, icosphere 0..2, fibonacci 4..12, chains 1..6 vertices, all switch "
+    "quick": "862 cases, each run as primary + repeat (862) + int_dtype (364, generators taking points) + "
+             "default_argument (75, origin-centred cases of generators with a default centre): resolutions 3..6 per axis "
+             "independently (unit_grid/unit_triangle 2..6, sphere_uv n_lat 2..6), radii {1/2,1,2}, centres {0,(1,2,3)}, 4 lattice axes, torus radii {(1,1/4),(2,1/2)}, ring N 3..6 x defects "
+             "{0,0.3,pi/2,pi,6,6.2} x open x covers {1,2}, icosphere 0..2, fibonacci 4..12, chains 1..6 vertices, all switch "
              "combinations, dual_mesh of 11 closed + 7 bordered generator outputs x 2 modes",
-    "thorough": "4046 cases: resolutions 3..12 per axis independently (unit_grid/unit_triangle 2..12, sphere_uv n_lat 2..12), "
+    "thorough": "4316 cases, each run as primary + repeat (4316) + int_dtype (1244) + default_argument (351): "
+                "resolutions 3..12 per axis independently (unit_grid/unit_triangle 2..12, sphere_uv n_lat 2..12), "
                 "radii {1/2,1,2}, centres {0,(1,2,3)}, 6 lattice axes, 5 torus radius pairs, ring N 3..12 x defects "
-                "{0,0.3,pi/2,pi,5} x open x covers {1,2,3}, icosphere 0..4, fibonacci 4..80, chains 1..12 vertices, "
+                "{0,0.3,pi/2,pi,5,6,6.2,2pi-0.01} x open x covers {1,2,3}, icosphere 0..4, fibonacci 4..80, chains 1..12 vertices, "
                 "tetrahedron on all 24 orderings of a lattice quadruple, all switch combinations, dual_mesh of 18 closed + "
                 "12 bordered generator outputs x 2 modes",
 }
@@ -250,15 +273,53 @@ def rows_match_as_sets(A, B, tol=TOL):
 # =================================================================================================
 # the per-case context
 # =================================================================================================
+# the argument form / call protocol of the case being run (set by run_case only, always restored):
+#   primary           float-typed point arguments, fresh argument objects, ONE call
+#   repeat            the same argument objects handed to the generator twice in a row, the oracle judges the 2nd result
+#   int_dtype         every point / array argument given with an integer dtype (only integer-valued lattice points)
+#   default_argument  the centre left to the generator's default (the documented origin), called twice in a row
+FORMS = {"primary": {"calls": 1, "dtype": "float"}, "repeat": {"calls": 2, "dtype": "float"},
+         "int_dtype": {"calls": 1, "dtype": "int"}, "default_argument": {"calls": 2, "dtype": "float"}}
+FORM_CLAUSE = {"repeat": ("repeat", "2nd_call"), "int_dtype": ("argform", "int_dtype"),
+               "default_argument": ("argform", "default_argument")}
+_ACTIVE = {"form": "primary", "rep": None, "log": None}
+
+
 class Cx:
     def __init__(self, rep: Report, gen, params):
         self.rep, self.gen, self.params = rep, gen, params
         self.callee = "procedural." + gen
+        self.form = _ACTIVE["form"]
+        self.calls = FORMS[self.form]["calls"]
+        self.dtype = FORMS[self.form]["dtype"]
 
     def bad(self, sub, kind, icls, callee=None, **detail):
         d = {"generator": self.gen, "params": self.params}
+        if self.form != "primary":
+            d["form"] = self.form
         d.update(detail)
+        if _ACTIVE["log"] is not None and self.rep is _ACTIVE["rep"]:
+            _ACTIVE["log"].append(("C14." + sub, callee or self.callee, kind, icls, d))
         self.rep.violation("C14." + sub, callee or self.callee, kind, icls, d)
+
+    # ---------------------------------------------------------------------------------- argument forms
+    def pt(self, M, q):
+        """a point argument (centre, corner, end point) in the argument form of the case"""
+        if self.dtype == "int":
+            assert all(float(c) == int(c) for c in q), q
+            v = M.Vec(*[int(c) for c in q])
+            assert v.dtype.kind == "i"
+            return v
+        return M.Vec(*[float(c) for c in q])
+
+    def arr(self, a):
+        """a fresh array argument in the argument form of the case"""
+        np = _np()
+        a = np.array(a, float)
+        if self.dtype == "int":
+            assert bool((a == np.round(a)).all())
+            return a.astype(np.int64)
+        return a.copy()
 
     def ev(self, n=1):
         self.rep.evaluations += n
@@ -359,21 +420,87 @@ class Cx:
         return ok
 
 
+def snapshot(x):
+    """canonical JSON-able image of an argument object: arrays with dtype / shape / values, meshes with their vertex
+    positions and element lists, lists / tuples element-wise, scalars by repr"""
+    np = _np()
+    if isinstance(x, np.ndarray):
+        return {"kind": "array:" + ("int" if x.dtype.kind in "iu" else "float" if x.dtype.kind == "f" else x.dtype.kind),
+                "dtype": str(x.dtype), "shape": list(x.shape), "values": np.asarray(x).tolist()}
+    if hasattr(x, "vertices") and hasattr(x, "id_vertices"):
+        out = {"kind": "mesh", "type": type(x).__name__,
+               "vertices": [[float(c) for c in v] for v in x.vertices]}
+        for cont in ("faces", "edges"):      # the defining element list only (edges of a surface are derived)
+            if hasattr(x, cont) and len(getattr(x, cont)):
+                out[cont] = [[int(v) for v in e] for e in getattr(x, cont)]
+                break
+        return out
+    if isinstance(x, (list, tuple)):
+        return {"kind": "sequence", "items": [snapshot(y) for y in x]}
+    return {"kind": "scalar", "repr": repr(x)}
+
+
+def _default_objects(fn):
+    """the array-valued default argument objects of a generator (created once, shared by all calls)"""
+    np = _np()
+    import inspect
+    out = []
+    o = call(inspect.signature, fn)
+    if o.ok:
+        for name, prm in o.value.parameters.items():
+            if isinstance(prm.default, np.ndarray):
+                out.append((name, prm.default))
+    return out
+
+
+def _arg_names(fn, a, k):
+    import inspect
+    o = call(inspect.signature, fn)
+    names = list(o.value.parameters) if o.ok else []
+    out = [(names[i] if i < len(names) else f"arg{i}", x) for i, x in enumerate(a)]
+    return out + [(n, k[n]) for n in sorted(k)]
+
+
 def run_generator(cx: Cx, fn, icls, *a, **k):
-    """call the generator; an exception on an admissible input is a violation"""
-    cx.rep.transitions += 1
-    cx.rep.traces += 1
-    o = call(fn, *a, **k)
-    cx.rep.outcome("call:" + cx.gen, "ok" if o.ok else o.exc)
-    if not o.ok:
-        cx.bad("returns_a_mesh", exc_kind(o), icls, msg=o.msg[:300])
-        return None
-    if o.value is None:
-        cx.bad("returns_a_mesh", "mismatch:returned_None", icls)
-        return None
+    """call the generator (cx.calls times in a row on the SAME argument objects; the last result goes to the oracle);
+    an exception on an admissible input is a violation, and so is any change of an argument object or of a default
+    argument object of the generator (C14.args.unchanged).  Default argument objects are put back afterwards."""
+    np = _np()
+    args = _arg_names(fn, a, k)
+    defaults = _default_objects(fn)
+    before = [(n, x, snapshot(x), False) for n, x in args] + [(n, x, snapshot(x), True) for n, x in defaults]
+    saved_defaults = [(x, np.array(x, copy=True)) for _n, x in defaults]
+    result, reported = None, False
+    try:
+        for call_no in range(1, cx.calls + 1):
+            cx.rep.transitions += 1
+            cx.rep.traces += 1
+            o = call(fn, *a, **k)
+            cx.rep.outcome("call:" + cx.gen, "ok" if o.ok else o.exc)
+            cx.ev(len(before))
+            for name, x, snap, is_default in before:
+                cx.rep.count("args_compared:" + ("default_argument" if is_default else snap["kind"]))
+                now = snapshot(x)
+                if now != snap and not reported:
+                    reported = True       # one report per case: the first call after which an object differs
+                    cls = "default_argument" if is_default else "argument:" + snap["kind"].split(":")[0]
+                    cx.bad("args.unchanged", "side_effect:argument_modified", f"{cx.gen}:{cls}", argument=name,
+                           after_call_number=call_no, before=snap, after=now)
+            if not o.ok:
+                cx.bad("returns_a_mesh", exc_kind(o), icls, msg=o.msg[:300], call_number=call_no)
+                return None
+            if o.value is None:
+                cx.bad("returns_a_mesh", "mismatch:returned_None", icls, call_number=call_no)
+                return None
+            result = o.value
+    finally:
+        for x, saved in saved_defaults:
+            if x.shape == saved.shape and not np.array_equal(x, saved):
+                np.copyto(x, saved, casting="unsafe")
     cx.rep.states += 1
-    cx.rep.case((cx.gen, repr(sorted(cx.params.items()))))
-    return o.value
+    cx.rep.case((cx.gen, cx.form, repr(sorted(cx.params.items()))))
+    cx.rep.flag("form:" + cx.form)
+    return result
 
 
 def rel(a, b):
@@ -429,7 +556,7 @@ def enum_tetrahedron(tier):
 def check_tetrahedron(M, p, rep):
     cx = Cx(rep, "tetrahedron", p)
     icls = f"tetrahedron:volume={p['volume']}"
-    pts = [M.Vec(*_fl(q)) for q in p["pts"]]
+    pts = [cx.pt(M, q) for q in p["pts"]]
     m = run_generator(cx, M.procedural.tetrahedron, icls, *pts, volume=p["volume"])
     if m is None:
         return
@@ -496,7 +623,7 @@ def _hexa_surface_checks(cx, m, icls, triangulate, colored):
 def check_hexahedron(M, p, rep):
     cx = Cx(rep, "hexahedron", p)
     icls = "hexahedron:volume" if p["volume"] else ("hexahedron:surface:triangles" if p["triangulate"] else "hexahedron:surface:quads")
-    pts = [M.Vec(*_fl(q)) for q in p["pts"]]
+    pts = [cx.pt(M, q) for q in p["pts"]]
     m = run_generator(cx, M.procedural.hexahedron, icls, *pts, colored=p["colored"], triangulate=p["triangulate"], volume=p["volume"])
     if m is None:
         return
@@ -547,7 +674,7 @@ def check_hexahedron_4pts(M, p, rep):
     np = _np()
     cx = Cx(rep, "hexahedron_4pts", p)
     icls = f"hexahedron_4pts:volume={p['volume']}"
-    pts = [M.Vec(*_fl(q)) for q in p["pts"]]
+    pts = [cx.pt(M, q) for q in p["pts"]]
     m = run_generator(cx, M.procedural.hexahedron_4pts, icls, *pts, colored=p["colored"], volume=p["volume"])
     if m is None:
         return
@@ -616,7 +743,10 @@ def enum_icosahedron(tier):
 def check_icosahedron(M, p, rep):
     cx = Cx(rep, "icosahedron", p)
     icls = "icosahedron"
-    m = run_generator(cx, M.procedural.icosahedron, icls, M.Vec(*p["center"]), p["radius"], p["uv"])
+    if cx.form == "default_argument":      # the documented default centre is the origin
+        m = run_generator(cx, M.procedural.icosahedron, icls, radius=p["radius"], uv=p["uv"])
+    else:
+        m = run_generator(cx, M.procedural.icosahedron, icls, cx.pt(M, p["center"]), p["radius"], p["uv"])
     if m is None or not cx.expect_type(m, "SurfaceMesh", icls):
         return
     P = _regular_solid(cx, m, icls, p["center"], 12, 20, 3)
@@ -694,7 +824,7 @@ def check_cylinder(M, p, rep):
     cx = Cx(rep, "cylinder", p)
     icls = "cylinder:" + ("caps" if p["fill_caps"] else "open")
     N = p["N"]
-    m = run_generator(cx, M.procedural.cylinder, icls, M.Vec(*_fl(p["P1"])), M.Vec(*_fl(p["P2"])), p["radius"], N, p["fill_caps"])
+    m = run_generator(cx, M.procedural.cylinder, icls, cx.pt(M, p["P1"]), cx.pt(M, p["P2"]), p["radius"], N, p["fill_caps"])
     if m is None or not cx.expect_type(m, "SurfaceMesh", icls):
         return
     rep.flag(f"fill_caps={p['fill_caps']}")
@@ -760,7 +890,10 @@ def check_sphere_uv(M, p, rep):
     cx = Cx(rep, "sphere_uv", p)
     a, b = p["n_lat"], p["n_long"]
     icls = "sphere_uv"
-    m = run_generator(cx, M.procedural.sphere_uv, icls, a, b, M.Vec(*p["center"]), p["radius"])
+    if cx.form == "default_argument":
+        m = run_generator(cx, M.procedural.sphere_uv, icls, a, b, radius=p["radius"])
+    else:
+        m = run_generator(cx, M.procedural.sphere_uv, icls, a, b, cx.pt(M, p["center"]), p["radius"])
     if m is None or not cx.expect_type(m, "SurfaceMesh", icls):
         return
     rep.flag("unequal_resolutions" if a != b else "equal_resolutions")
@@ -786,7 +919,10 @@ def check_icosphere(M, p, rep):
     cx = Cx(rep, "icosphere", p)
     k = p["n_refine"]
     icls = "icosphere:n_refine=0" if k == 0 else "icosphere:n_refine>0"
-    m = run_generator(cx, M.procedural.icosphere, icls, k, M.Vec(*p["center"]), p["radius"])
+    if cx.form == "default_argument":
+        m = run_generator(cx, M.procedural.icosphere, icls, k, radius=p["radius"])
+    else:
+        m = run_generator(cx, M.procedural.icosphere, icls, k, cx.pt(M, p["center"]), p["radius"])
     if m is None or not cx.expect_type(m, "SurfaceMesh", icls):
         return
     res = cx.structural(m, icls, "sphere")
@@ -840,7 +976,7 @@ def enum_triangle(tier):
 def check_triangle(M, p, rep):
     cx = Cx(rep, "triangle", p)
     icls = "triangle"
-    m = run_generator(cx, M.procedural.triangle, icls, *[M.Vec(*_fl(q)) for q in p["pts"]])
+    m = run_generator(cx, M.procedural.triangle, icls, *[cx.pt(M, q) for q in p["pts"]])
     if m is None or not cx.expect_type(m, "SurfaceMesh", icls):
         return
     cx.structural(m, icls, "disk")
@@ -856,7 +992,7 @@ def check_quad(M, p, rep):
     np = _np()
     cx = Cx(rep, "quad", p)
     icls = "quad:" + ("triangles" if p["triangulate"] else "quads")
-    m = run_generator(cx, M.procedural.quad, icls, *[M.Vec(*_fl(q)) for q in p["pts"]], triangulate=p["triangulate"])
+    m = run_generator(cx, M.procedural.quad, icls, *[cx.pt(M, q) for q in p["pts"]], triangulate=p["triangulate"])
     if m is None or not cx.expect_type(m, "SurfaceMesh", icls):
         return
     res = cx.structural(m, icls, "disk")
@@ -1209,7 +1345,7 @@ def check_chain_of_vertices(M, p, rep):
     n = p["n"]
     icls = "chain_of_vertices:" + ("loop" if p["loop"] else "open")
     pts = _lattice_path(n)
-    m = run_generator(cx, M.procedural.chain_of_vertices, icls, np.array(pts, float).reshape(n, 3), p["loop"])
+    m = run_generator(cx, M.procedural.chain_of_vertices, icls, cx.arr(pts).reshape(n, 3), p["loop"])
     if m is None or not cx.expect_type(m, "PolyLine", icls):
         return
     rep.flag(f"loop={p['loop']}")
@@ -1229,7 +1365,7 @@ def check_vector_field(M, p, rep):
     icls = "vector_field:K=3" if K == 3 else "vector_field:K<3"
     O = np.array([[float((2 * i + 3 * k) % 5) for k in range(K)] for i in range(n)], float)
     W = np.array([[float(1 + (i + 2 * k) % 3) * (-1) ** (i + k) for k in range(K)] for i in range(n)], float)
-    m = run_generator(cx, M.procedural.vector_field, icls, O.copy(), W.copy(), p["mult"])
+    m = run_generator(cx, M.procedural.vector_field, icls, cx.arr(O), cx.arr(W), p["mult"])
     if m is None or not cx.expect_type(m, "PolyLine", icls):
         return
     _polyline_basic(cx, m, icls, 2 * n, [(2 * i, 2 * i + 1) for i in range(n)])
@@ -1255,7 +1391,7 @@ def check_spherify_vertices(M, p, rep):
     k = p["n_subdiv"]
     icls = "spherify_vertices:n_subdiv=0" if k == 0 else "spherify_vertices:n_subdiv>0"
     pts = np.array(p["pts"], float)
-    arg = M.mesh.from_arrays(pts.copy()) if p["as"] == "PointCloud" else pts.copy()
+    arg = M.mesh.from_arrays(pts.copy()) if p["as"] == "PointCloud" else cx.arr(pts)
     m = run_generator(cx, M.procedural.spherify_vertices, icls, arg, p["radius"], k)
     if m is None or not cx.expect_type(m, "SurfaceMesh", icls):
         return
@@ -1367,13 +1503,126 @@ PINNED = {
               'dodecahedron': 1, 'icosahedron': 12, 'cylinder': 96, 'torus': 64, 'sphere_uv': 120, 'icosphere': 18,
               'sphere_fibonacci': 54, 'triangle': 4, 'quad': 8, 'unit_grid': 100, 'unit_triangle': 50, 'ring': 96,
               'flat_ring': 48, 'dual_mesh': 36, 'chain_of_vertices': 10, 'vector_field': 36, 'spherify_vertices': 24,
-              'cylindrify_edges': 32},                                                             # 814 cases
+              'cylindrify_edges': 32},                                                             # 862 cases
     "thorough": {'tetrahedron': 54, 'hexahedron': 24, 'axis_aligned_cube': 4, 'hexahedron_4pts': 16, 'octahedron': 1,
                  'dodecahedron': 1, 'icosahedron': 12, 'cylinder': 360, 'torus': 1000, 'sphere_uv': 660, 'icosphere': 30,
                  'sphere_fibonacci': 462, 'triangle': 4, 'quad': 8, 'unit_grid': 484, 'unit_triangle': 242, 'ring': 480,
                  'flat_ring': 240, 'dual_mesh': 60, 'chain_of_vertices': 22, 'vector_field': 36, 'spherify_vertices': 36,
-                 'cylindrify_edges': 80},                                                          # 4046 cases
+                 'cylindrify_edges': 80},                                                          # 4316 cases
 }
+
+
+# -------------------------------------------------------------------------------------------------
+# argument forms / call protocols of one case
+# -------------------------------------------------------------------------------------------------
+INT_POINT_KEYS = {"tetrahedron": ["pts"], "hexahedron": ["pts"], "hexahedron_4pts": ["pts"], "icosahedron": ["center"],
+                  "cylinder": ["P1", "P2"], "sphere_uv": ["center"], "icosphere": ["center"], "triangle": ["pts"],
+                  "quad": ["pts"]}
+ORIGIN_DEFAULT = ("icosahedron", "sphere_uv", "icosphere")     # generators whose centre defaults to the origin
+
+
+def _integral(x):
+    if isinstance(x, (list, tuple)):
+        return all(_integral(y) for y in x)
+    return float(x) == int(x)
+
+
+def forms_of(gen, p):
+    """the further forms in which the case (gen, p) is run after the primary one"""
+    out = ["repeat"]
+    if gen in INT_POINT_KEYS and all(_integral(p[k]) for k in INT_POINT_KEYS[gen]):
+        out.append("int_dtype")
+    if gen in ("chain_of_vertices", "vector_field") or (gen == "spherify_vertices" and p["as"] == "ndarray"):
+        out.append("int_dtype")
+    if gen in ORIGIN_DEFAULT and all(c == 0 for c in p["center"]):
+        out.append("default_argument")
+    return out
+
+
+def _canon_detail(d):
+    def r(x):
+        if isinstance(x, float):
+            return float("%.9g" % x) if x == x and abs(x) != float("inf") else repr(x)
+        if isinstance(x, dict):
+            return {str(k): r(v) for k, v in x.items() if k not in ("params", "form", "generator")}
+        if isinstance(x, (list, tuple)):
+            return [r(v) for v in x]
+        return x
+    import json
+    from mc.core import jsonable
+    return json.dumps(r(jsonable(d)), sort_keys=True)
+
+
+def _run_form(form, chk, M, p, rep, log):
+    old = dict(_ACTIVE)
+    _ACTIVE.update(form=form, rep=rep, log=log)
+    try:
+        chk(M, p, rep)
+    finally:
+        _ACTIVE.update(old)
+
+
+def run_case(M, gen, chk, p, rep):
+    """primary form into the report; every further form into a scratch report, with the SAME expectations: what the
+    oracle finds there and did not find (same clause, same witness) on the primary form is reported under the clause
+    of the form (C14.repeat.* / C14.argform.*)"""
+    prim = []
+    _run_form("primary", chk, M, p, rep, prim)
+    explained = {(s, c, k, i, _canon_detail(d)) for (s, c, k, i, d) in prim}
+    for form in forms_of(gen, p):
+        scratch, log = Report(), []
+        _run_form(form, chk, M, p, scratch, log)
+        rep.count("runs:" + form)
+        rep.states += scratch.states; rep.transitions += scratch.transitions
+        rep.traces += scratch.traces; rep.evaluations += scratch.evaluations
+        rep.distinct |= scratch.distinct
+        for kind, labels in scratch.outcomes.items():
+            for lab in sorted(labels):
+                rep.outcome(kind, lab)
+        for f in scratch.flags:
+            if f.startswith("form:"):
+                rep.flag(f)
+        for name, n in scratch.counters.items():
+            if name.startswith("args_compared:"):
+                rep.count(name, n)
+        clause, tag = FORM_CLAUSE[form]
+        for (s, c, k, i, d) in log:
+            if (s, c, k, i, _canon_detail(d)) in explained:
+                rep.count("finding_of_primary_form_seen_again:" + form)
+                continue
+            if s == "C14.args.unchanged":      # its class already names the kind of object that was modified
+                rep.violation(s, c, k, i, d)
+            else:
+                rep.violation("C14." + clause + "." + s[4:], c, k, i + ":" + tag, d)
+
+
+def _selftest(M, rep):
+    """the argument / default-argument comparison of run_generator notices a generator that writes through a view"""
+    def fake(n, center=M.Vec(0., 0., 0.)):
+        c = M.Vec(center)
+        c[2] -= n
+        return n
+    for how in ("argument", "default_argument"):
+        s, log = Report(), []
+        old = dict(_ACTIVE)
+        _ACTIVE.update(form="primary", rep=s, log=log)
+        try:
+            cx = Cx(s, "selftest", {})
+            if how == "argument":
+                run_generator(cx, fake, "selftest", 1, M.Vec(0., 0., 0.))
+            else:
+                run_generator(cx, fake, "selftest", 1)
+        finally:
+            _ACTIVE.update(old)
+        if [e[3] for e in log if e[0] == "C14.args.unchanged"] == ["selftest:" + ("argument:array" if how == "argument" else how)]:
+            rep.flag("selftest:args_unchanged:" + how)
+    if [float(c) for c in fake.__defaults__[0]] == [0.0, 0.0, 0.0]:
+        rep.flag("selftest:default_argument_put_back")
+
+
+# number of runs in the further forms (pinned like the boxes)
+PINNED_RUNS = {"quick": {"repeat": 862, "int_dtype": 364, "default_argument": 75},
+               "thorough": {"repeat": 4316, "int_dtype": 1244, "default_argument": 351}}
 
 
 def tasks(tier):
@@ -1390,9 +1639,11 @@ def run_task(task, rep: Report):
     warnings.filterwarnings("ignore")
     import mouette as M
     chk = GENERATORS[task["gen"]][1]
+    if task.get("first_batch"):
+        _selftest(M, rep)
     for p in task["cases"]:
         rep.count("cases:" + task["gen"])
-        chk(M, p, rep)
+        run_case(M, task["gen"], chk, p, rep)
         if task.get("first_batch") and p is task["cases"][-1] and task["gen"] in ("cylinder", "torus", "unit_grid", "ring"):
             rep.sample({"generator": task["gen"], "params": p})
 
@@ -1413,6 +1664,16 @@ def finish(tier, rep: Report):
               "cylindrify:mean_edge_length!=1"):
         if f not in rep.flags:
             fails.append("coverage flag missing: " + f)
+    for f in ("form:primary", "form:repeat", "form:int_dtype", "form:default_argument", "selftest:args_unchanged:argument",
+              "selftest:args_unchanged:default_argument", "selftest:default_argument_put_back"):
+        if f not in rep.flags:
+            fails.append("coverage flag missing: " + f)
+    for form, n in PINNED_RUNS[tier].items():
+        if rep.counters.get("runs:" + form, 0) != n:
+            fails.append(f"form {form}: {rep.counters.get('runs:' + form, 0)} runs, {n} pinned")
+    for kind in ("array:float", "array:int", "mesh", "default_argument"):
+        if rep.counters.get("args_compared:" + kind, 0) == 0:
+            fails.append(f"no argument object of kind {kind} was compared before / after a call")
     if len(rep.outcomes.get("type", ())) < 3:
         fails.append("fewer than 3 distinct result container types seen")
     return fails
